@@ -374,7 +374,7 @@ func (l pyList) Operator(operator Operator, operand pyObject) pyObject {
 		return l.concat(l2)
 	case In, NotIn:
 		for _, item := range l {
-			if item == operand {
+			if objectsEqual(item, operand) {
 				return newPyBool(operator == In)
 			}
 		}
